@@ -231,6 +231,29 @@ def run(chk, tier):
         chk.ok("R13.6", "integers are converted in the scanned base", radix)
     else:
         chk.bad("R13.6", "integers are converted in the scanned base", "from_str_radix is called with radix %s" % radix, num.file)
+    chk.rule("R13.7", "unary minus: checked negation on int, IEEE sign flip on double (so negative literals denote what they spell, incl. -0.0), error otherwise")
+    # ---- unary minus decision table (symbolic execution): int -> checked_neg (None = error), double -> the IEEE sign flip
+    # (MIR Neg on f64: -(+0.0) = -0.0, which `0.0 - x` is not), every other operand an error, a failed operand is kept
+    nb_ = F.body("<rscel::types::cel_value::CelValue as std::ops::Neg>::neg")
+    it_ = symex.Interp(F, semtables.LogicPolicy())
+    rows_ = {}
+    for st_, r_ in it_.run(nb_, [symex.U("a", "rscel::types::cel_value::CelValue")]):
+        pos = [c[2] for c in st_.cond if c[0] == "variant" and c[3] == "a"]
+        opt = [c[2] for c in st_.cond if c[0] == "variant" and "checked_neg" in str(c[3])]
+        err = [c for c in st_.cond if c[0] in ("eq", "ne") and c[1] == "CelValue::is_err(a)"]
+        failed = bool(err) and not (err[0][0] == "eq" and err[0][2] == 0)
+        key_ = "failed" if failed else ((pos[0] if pos else "other") + ("/" + opt[0] if opt else ""))
+        rows_[key_] = symex.render(r_)
+    want_ = {"failed": r"^a$", "Int/Some": r"^From::from<CelValue><-i64\(i64::checked_neg\(a\.Int\.0\)\.Some\.0\)$", "Int/None": r"^CelValue::from_err\(",
+             "Float": r"^From::from<CelValue><-f64\(Neg\(a\.Float\.0\)\)$", "other": r"^CelValue::from_err\("}
+    for k_, rx_ in want_.items():
+        g_ = rows_.get(k_)
+        if g_ is not None and re.match(rx_, g_):
+            chk.ok("R13.7", "neg|" + k_, g_[:80])
+        else:
+            chk.bad("R13.7", "neg|" + k_, "unary minus on %s yields %s; expected %s (int: checked negation, double: IEEE sign flip so that -(0.0) is -0.0, anything else an error)" % (k_, g_, rx_), nb_.file)
+    for k_ in set(rows_) - set(want_):
+        chk.bad("R13.7", "neg|" + k_, "unary minus has an unexpected case %s -> %s" % (k_, rows_[k_][:100]), nb_.file)
     return chk.finish(
         "Cast and callee rules on the literal path: parser narrowing of IntLit, the number scanner's conversion primitives, code-point validation, "
         "shared escape helper; escape tables of both literal scanners extracted by symbolic execution of one loop step after a backslash "
